@@ -426,5 +426,42 @@ theorem refineWith_covers (u r w : Value) (hum : u.v.isMarked = false)
       obtain ⟨ρ, rfl⟩ := this
       exact covers_refineNN_unk t ρ r q hq hcl hfit hc
 
+/-- **Through `Call`.**  For a function that declares `RefineResult: refineNonNull`: if the
+unrefined outcomes of the concrete and of the weakened call are `r` and `u` with `u` admitting `r`
+(`r` known, not null, mark-free, of a proper type), then the concrete `Call` returns `r` itself and
+every value the weakened `Call` returns still admits it. -/
+theorem call_refined_covers (spec : Spec) (tf : TypeFn) (impl : ImplFn) (os ws : List Value) (r u : Value)
+    (hrf : spec.refine = some refineNN)
+    (ho : (callUnrefined spec tf impl os).1 = .ok r) (hu : (callUnrefined spec tf impl ws).1 = .ok u)
+    (hum : u.v.isMarked = false) (hud : u.ty.isDyn = false ∨ u.isKnown = false)
+    (hcl : r.containsMarked = false) (hfit : fitsTop r.ty r.v = true) (hd : r.ty.isDyn = false)
+    (hc : Covers u r = true) :
+    (call spec tf impl os).1 = .ok r ∧ ∀ w, (call spec tf impl ws).1 = .ok w → Covers w r = true := by
+  constructor
+  · rw [call_eq_finish]
+    cases hco : callUnrefined spec tf impl os with
+    | mk o1 o2 =>
+    rw [hco] at ho
+    simp only at ho
+    subst ho
+    rw [finish_ok, hrf]
+    have ht : typed r = true := by simp [typed, hd]
+    simp only [ht, if_true]
+    exact refineWith_known hcl hfit hd
+  · intro w hw
+    rw [call_eq_finish] at hw
+    cases hcw : callUnrefined spec tf impl ws with
+    | mk o1 o2 =>
+    rw [hcw] at hu hw
+    simp only at hu
+    subst hu
+    rw [finish_ok, hrf] at hw
+    by_cases ht : typed u = true
+    · simp only [ht, if_true] at hw
+      exact refineWith_covers u r w hum hud hcl hfit hc hw
+    · simp only [ht, Bool.false_eq_true, if_false, Out.ok.injEq] at hw
+      subst hw
+      exact hc
+
 end C12L
 end CtyModel
